@@ -66,7 +66,11 @@ X == <<120>>                                   \* the value "x"
 Colon == <<58>>
 Sp == <<32>>
 
-Case(form, q, fields, vals, df) == [form |-> form, q_codes |-> q, q |-> "", fields |-> fields, vals |-> vals, df |-> df, alt |-> ""]
+Case(form, q, fields, vals, df) == [form |-> form, q_codes |-> q, q |-> "", fields |-> fields, vals |-> vals, df |-> df, df_codes |-> <<>>, alt |-> ""]
+\* the default field itself is adversarial (WithDefaultField(w)); bare terms are scoped to it
+DfCase(form, q, w, vals) == [form |-> form, q_codes |-> q, q |-> "", fields |-> {w}, vals |-> vals, df |-> "", df_codes |-> w, alt |-> ""]
+DfCases(w) == { DfCase("df_bare", X, w, {X}), DfCase("df_and", X \o <<32,65,78,68,32,121>>, w, {X, <<121>>}),
+                DfCase("df_not", <<78,79,84,32>> \o X, w, {X}), DfCase("df_wild", X \o <<42>>, w, {X \o <<42>>}) }
 \* ways to write a value
 Spell(w) == {Esc(w)} \cup (IF HasDQ(w) THEN {} ELSE {Quote(w)})
 
@@ -105,7 +109,7 @@ RandVals == IF Tier = "quick" THEN {} ELSE {RandStr(RandomElement(1..8)) : i \in
 PairCases == IF Tier = "quick" THEN {}
              ELSE {Case("pair", Esc(Adv[i]) \o Colon \o Esc(Adv[j]), {Adv[i]}, {Adv[j]}, "") : i \in DOMAIN Adv, j \in DOMAIN Adv}
                   \cup {Case("pair_df", Esc(Adv[j]), {Adv[i]}, {Adv[j]}, "") : i \in {1, 2, 5}, j \in DOMAIN Adv}
-All == UNION {ValueCases(Adv[i]) \cup FieldCases(Adv[i]) : i \in DOMAIN Adv}
+All == UNION {ValueCases(Adv[i]) \cup FieldCases(Adv[i]) \cup DfCases(Adv[i]) : i \in DOMAIN Adv} \cup DfCases(LongName)
        \cup UNION {ValueCases(w) \cup FieldCases(w) : w \in RandVals} \cup PairCases
        \cup UNION {NumCases(NumLike[i]) : i \in DOMAIN NumLike}
        \cup FieldCases(LongName) \cup ValueCases(LongName)
